@@ -38,6 +38,25 @@ func init() {
 	})
 }
 
+func init() {
+	extraHooks = append(extraHooks, func(p *Program) {
+		p.hooks["time.Date"] = func(fr *frame, args []value) value {
+			// only UTC locations exist in the executor (time's init is not run)
+			fr.i.noteStub("time.Date: evaluated natively, location taken as UTC")
+			n := func(k int) int { return int(asInt64(args[k])) }
+			return timeValue(time.Date(n(0), time.Month(n(1)), n(2), n(3), n(4), n(5), n(6), time.UTC))
+		}
+		p.hooks["time.Unix"] = func(fr *frame, args []value) value {
+			return timeValue(time.Unix(asInt64(args[0]), asInt64(args[1])))
+		}
+		p.hooks["(time.Time).UTC"] = func(fr *frame, args []value) value {
+			st := args[0].(structure)
+			return structure{st[0], st[1], (*value)(nil)}
+		}
+		p.hooks["(time.Time).Location"] = func(fr *frame, args []value) value { return (*value)(nil) }
+	})
+}
+
 // timeValue converts a native time.Time (as UTC) into the interpreter's
 // structure for time.Time{wall uint64, ext int64, loc *Location}.
 func timeValue(t time.Time) value {
